@@ -1,4 +1,5 @@
 """C03 Stored diagram well-formed; level bookkeeping"""
+import evlm
 import ewho
 import ereduce
 import ecanon
@@ -49,5 +50,10 @@ def run(ctx):
                 "E-TABLE.skip: level_swap splits children below the lower level with the kind's skipped-level cofactors.")
     esort.check_relabel_worklist(ctx, F)
     eskip.run(ctx, F)
+    ctx.explain("E-VLM: the managers' variable <-> level maps stay mutually inverse permutations: extend appends the identity "
+                "(new variables at the new bottom levels), swap_levels exchanges exactly two levels in both vectors, lookups read "
+                "their own vector; the index-based and the pointer-based manager's copies are the same program.")
+    nv = evlm.run(ctx, F)
+    ctx.floor("E-VLM", "interpreted VarLevelMap situations", nv, 38)
     ctx.not_decided = ("uniqueness/reducedness of the stored graph after arbitrary histories; minimal node counts; "
                        "the then-edge regularity of complement-edge nodes (planned tag-lattice rule)")
